@@ -625,4 +625,243 @@ VF_PART(derived_1d) { TH = C.thorough(); derived(C, 1, 4, TH ? 4 : 3); }
 VF_PART(derived_2d) { TH = C.thorough(); derived(C, 2, 4, TH ? 4 : 3); }
 VF_PART(derived_3d) { TH = C.thorough(); derived(C, 3, 3, TH ? 3 : 2); }
 
-int main(int argc, char** argv) { return run_main(argc, argv, [](Ctx&) { silence(); }); }
+
+// =================================================================================================================
+// Part history (engine E2): histories of public calls on ONE Grid object and ONE DbGrid object.
+// Alphabet = in-place geometry edits (setX0/setDX/setNX per axis, the four rotation setters, copyParams 1..4 from another grid,
+// a full reset) U queries (getCoordinate of node 0 / middle / last as separate calls - so that the same node is asked twice in
+// a row around an edit -, getCoordinate without rotation, getCoordinatesByRank / getSampleCoordinates, indices->coordinates->
+// rank round trip, rank<->indices, cell corners, stored coordinate columns).  After every history the LAST call is judged:
+//   edit  : the reported parameters (getNX/getDX/getX0/angles/rotation matrix) are those of the abstract model of the setters;
+//   query : the answer is the reference geometry computed from the parameters the object REPORTS at that moment.
+// No invariant sweep is run between the calls (it would itself touch the hidden work buffers / any cache): only the queries
+// that are part of the history observe the object.  The state key hashes the reported parameters, all `mutable` members of
+// Grid (_iwork0, _work1, _work2) and (last node asked through the getCoordinate family, its flag, edited-since); the search
+// is run without pruning so that a primed-but-equal-looking state can never be hidden.
+#include "vf/bfs.hpp"
+#include "Geometry/Rotation.hpp"
+struct HSeed { int nd; int nx[3]; double dx[3], x0[3], ang[3]; };
+static const HSeed HSEEDS[2] = {{2, {2, 3, 1}, {1, 2, 1}, {10, 20, 0}, {30, 0, 0}}, {3, {2, 2, 3}, {1, 0.5, 2}, {0, 0, 0}, {40, 20, 10}}};
+static const HSeed HAUX[2] = {{2, {3, 2, 1}, {0.25, 4, 1}, {1, 2, 0}, {15, 0, 0}}, {3, {3, 2, 2}, {0.25, 4, 1}, {1, 2, 3}, {15, 5, -5}}};
+static const HSeed HRESET[2] = {{2, {3, 3, 1}, {2, 0.5, 1}, {-1, 4, 0}, {120, 0, 0}}, {3, {2, 3, 2}, {2, 0.5, 1}, {-1, 4, 2}, {-70, 15, 200}}};
+enum { HE_X0_0, HE_X0_L, HE_DX_0, HE_DX_L, HE_NX_0, HE_NX_L, HE_CP1, HE_CP2, HE_CP3, HE_CP4, HE_RESET, HE_ROT_ANGLE, HE_ROT_ANGLES, HE_ROT_MATRIX, HE_ROT_VECTOR,
+       HQ_C0, HQ_CM, HQ_CL, HQ_CM_NOROT, HQ_S0, HQ_SM, HQ_SL, HQ_ROUNDTRIP, HQ_INDICES, HQ_CELL, HQ_STORED, HNOPS };
+static const char* HOPN[HNOPS] = {"setX0(0,7.5)", "setX0(last,-2.25)", "setDX(0,0.5)", "setDX(last,2.5)", "setNX(0,3)", "setNX(last,2)", "copyParams(1:nx)", "copyParams(2:x0)", "copyParams(3:dx)",
+                                  "copyParams(4:rotation)", "full-reset", "setRotationByAngle(90)", "setRotationByAngles", "setRotationByMatrix", "setRotationByVector",
+                                  "getCoordinate(first)", "getCoordinate(middle)", "getCoordinate(last)", "getCoordinate(middle,no-rotation)", "coordinates(first)", "coordinates(middle)", "coordinates(last)",
+                                  "indices->coordinates->rank(last)", "rank<->indices(middle)", "cell-corners(middle)", "stored-x-columns(middle)"};
+static VectorInt hvi(const int* a, int nd) { return VectorInt(a, a + nd); }
+static VectorDouble hvd(const double* a, int nd) { return VectorDouble(a, a + nd); }
+static Grid makeGridOf(const HSeed& s) { Grid g(s.nd); g.resetFromVector(hvi(s.nx, s.nd), hvd(s.dx, s.nd), hvd(s.x0, s.nd), hvd(s.ang, s.nd)); return g; }
+
+// dbhost=false: a Grid object; true: a DbGrid object (public DbGrid API only)
+static StepResult historyExec(Ctx& C, int iseed, bool dbhost, const History& h)
+{
+  const HSeed& S = HSEEDS[iseed];
+  const int nd = S.nd;
+  StepResult res;
+  std::unique_ptr<Grid> gown; std::unique_ptr<DbGrid> db;
+  if (dbhost) db.reset(DbGrid::create(hvi(S.nx, nd), hvd(S.dx, nd), hvd(S.x0, nd), hvd(S.ang, nd)));
+  else gown.reset(new Grid(makeGridOf(S)));
+  Grid aux = makeGridOf(HAUX[iseed]);
+  const Grid* G = dbhost ? &db->getGrid() : gown.get();
+  // abstract model of the parameters
+  RefGrid M; M.nd = nd;
+  for (int i = 0; i < nd; i++) { M.nx[i] = S.nx[i]; M.dx[i] = S.dx[i]; M.x0[i] = S.x0[i]; }
+  M.angles = std::vector<double>(S.ang, S.ang + nd); M.setRot();
+  int lastRank = -1, lastFlag = -1; bool editedSince = false, inPlaceEditSinceReset = false;
+  const std::string kase = hist_str(h);
+  auto angOf = [&](const double* a) { std::vector<double> v(a, a + nd); if (nd == 2) v[1] = 0; return v; };
+  for (size_t k = 0; k < h.size(); k++)
+  {
+    int op = h[k];
+    bool last = k + 1 == h.size();
+    bool isEdit = op < HQ_C0;
+    // applicability
+    if (dbhost && (op == HE_ROT_ANGLE || op == HE_ROT_ANGLES || op == HE_ROT_MATRIX || op == HE_ROT_VECTOR)) { res.enabled = false; res.expand = false; return res; }   // no public DbGrid route
+    if (!dbhost && op == HQ_STORED) { res.enabled = false; res.expand = false; return res; }
+    if (nd != 2 && op == HQ_CELL && dbhost) { res.enabled = false; res.expand = false; return res; }   // getCellEdges is a 2-D notion
+    if (isEdit)
+    {
+      static const double A1[3] = {-45, 0, 0}, A1b[3] = {135, -60, 75}, A2[3] = {60, 0, 0}, A2b[3] = {10, 0, 350}, A3[3] = {200, 0, 0}, A3b[3] = {0, 90, 0};
+      int L = nd - 1;
+      switch (op)
+      {
+        case HE_X0_0: if (dbhost) db->setX0(0, 7.5); else gown->setX0(0, 7.5); M.x0[0] = 7.5; break;
+        case HE_X0_L: if (dbhost) db->setX0(L, -2.25); else gown->setX0(L, -2.25); M.x0[L] = -2.25; break;
+        case HE_DX_0: if (dbhost) db->setDX(0, 0.5); else gown->setDX(0, 0.5); M.dx[0] = 0.5; break;
+        case HE_DX_L: if (dbhost) db->setDX(L, 2.5); else gown->setDX(L, 2.5); M.dx[L] = 2.5; break;
+        case HE_NX_0: if (dbhost) db->setNX(0, 3); else gown->setNX(0, 3); M.nx[0] = 3; break;
+        case HE_NX_L: if (dbhost) db->setNX(L, 2); else gown->setNX(L, 2); M.nx[L] = 2; break;
+        case HE_CP1: if (dbhost) db->gridCopyParams(1, aux); else gown->copyParams(1, aux); for (int i = 0; i < nd; i++) M.nx[i] = HAUX[iseed].nx[i]; break;
+        case HE_CP2: if (dbhost) db->gridCopyParams(2, aux); else gown->copyParams(2, aux); for (int i = 0; i < nd; i++) M.x0[i] = HAUX[iseed].x0[i]; break;
+        case HE_CP3: if (dbhost) db->gridCopyParams(3, aux); else gown->copyParams(3, aux); for (int i = 0; i < nd; i++) M.dx[i] = HAUX[iseed].dx[i]; break;
+        case HE_CP4: if (dbhost) db->gridCopyParams(4, aux); else gown->copyParams(4, aux); M.angles = angOf(HAUX[iseed].ang); M.setRot(); break;
+        case HE_RESET:
+        {
+          const HSeed& R = HRESET[iseed];
+          if (dbhost) db->reset(hvi(R.nx, nd), hvd(R.dx, nd), hvd(R.x0, nd), hvd(R.ang, nd));
+          else gown->resetFromVector(hvi(R.nx, nd), hvd(R.dx, nd), hvd(R.x0, nd), hvd(R.ang, nd));
+          for (int i = 0; i < nd; i++) { M.nx[i] = R.nx[i]; M.dx[i] = R.dx[i]; M.x0[i] = R.x0[i]; }
+          M.angles = angOf(R.ang); M.setRot();
+          G = dbhost ? &db->getGrid() : gown.get();
+          break;
+        }
+        case HE_ROT_ANGLE: gown->setRotationByAngle(90.); M.angles.assign(nd, 0.); M.angles[0] = 90.; M.setRot(); break;
+        case HE_ROT_ANGLES: { const double* a = nd == 2 ? A1 : A1b; gown->setRotationByAngles(hvd(a, nd)); M.angles = angOf(a); M.setRot(); break; }
+        case HE_ROT_MATRIX: { const double* a = nd == 2 ? A2 : A2b; Rotation r(nd); r.setAngles(hvd(a, nd)); gown->setRotationByMatrix(r.getMatrixDirect()); M.angles = angOf(a); M.setRot(); break; }
+        case HE_ROT_VECTOR: { const double* a = nd == 2 ? A3 : A3b; Rotation r(nd); r.setAngles(hvd(a, nd)); gown->setRotationByVector(r.getMatrixDirectVec()); M.angles = angOf(a); M.setRot(); break; }
+      }
+      editedSince = true;
+      inPlaceEditSinceReset = op != HE_RESET;
+      if (last)
+      {
+        bool ok = true; std::string w;
+        for (int i = 0; i < nd; i++) if (G->getNX(i) != M.nx[i] || G->getDX(i) != M.dx[i] || G->getX0(i) != M.x0[i]) ok = false;
+        VectorDouble ra = G->getRotAngles();
+        RefGrid T = M; T.angles.assign(ra.begin(), ra.end()); T.setRot();
+        for (int i = 0; i < nd; i++) for (int j = 0; j < nd; j++)
+        {
+          if (std::fabs(T.R[i][j] - M.R[i][j]) > 1e-9) { ok = false; w = " reported angles " + vstr(ra) + " do not rebuild the rotation that was set (angles " + vstr(M.angles) + ")"; }
+          if (std::fabs(G->getRotation().getMatrixDirect().getValue(i, j) - M.R[i][j]) > 1e-12) { ok = false; w = " rotation matrix differs from the one that was set"; }
+        }
+        if (!ok) C.violation(std::string("history:params-after:") + HOPN[op], std::string(dbhost ? "DbGrid" : "Grid") + " after {" + kase + "}: reported nx=" + vstr(G->getNXs()) + " dx=" + vstr(G->getDXs()) + " x0=" + vstr(G->getX0s()) +
+                             " angles=" + vstr(ra) + " but the setters ask for " + M.text() + w, kase);
+      }
+      continue;
+    }
+    // ---- queries: reference from the parameters the object reports NOW
+    RefGrid Rf; Rf.nd = nd;
+    for (int i = 0; i < nd; i++) { Rf.nx[i] = G->getNX(i); Rf.dx[i] = G->getDX(i); Rf.x0[i] = G->getX0(i); }
+    { VectorDouble ra = G->getRotAngles(); Rf.angles.assign(ra.begin(), ra.end()); Rf.setRot(); }
+    int ntot = Rf.ntotal();
+    if (dbhost) ntot = std::min(ntot, db->getSampleNumber());
+    int rr[3] = {0, ntot / 2, ntot - 1};
+    double tol = 1e-11 * Rf.scale();
+    std::string bad;
+    auto expect = [&](int r, bool rot) {
+      int ii[3]; Rf.indices(r, ii);
+      if (rot) return Rf.posI(ii);
+      std::vector<double> p(nd); for (int i = 0; i < nd; i++) p[i] = Rf.x0[i] + ii[i] * Rf.dx[i]; return p;
+    };
+    switch (op)
+    {
+      case HQ_C0: case HQ_CM: case HQ_CL: case HQ_CM_NOROT:
+      {
+        int r = op == HQ_C0 ? rr[0] : op == HQ_CL ? rr[2] : rr[1];
+        bool rot = op != HQ_CM_NOROT;
+        std::vector<double> e = expect(r, rot); VectorDouble got(nd);
+        for (int i = 0; i < nd; i++) got[i] = dbhost ? db->getCoordinate(r, i, rot) : G->getCoordinate(r, i, rot);
+        if (!nearv(e, got, tol)) bad = std::string(dbhost ? "DbGrid" : "Grid") + "::getCoordinate(rank " + std::to_string(r) + (rot ? "" : ", flag_rotate=false") + ") = " + vstr(got) + " but the node is at " + vstr(e);
+        lastRank = r; lastFlag = rot; editedSince = false;
+        break;
+      }
+      case HQ_S0: case HQ_SM: case HQ_SL:
+      {
+        int r = rr[op - HQ_S0];
+        std::vector<double> e = expect(r, true);
+        VectorDouble got = dbhost ? db->getSampleCoordinates(r) : G->getCoordinatesByRank(r);
+        VectorDouble got2 = dbhost ? db->getCoordinatesPerSample(r) : G->rankToCoordinates(r);
+        if (!nearv(e, got, tol)) bad = std::string(dbhost ? "DbGrid::getSampleCoordinates(" : "Grid::getCoordinatesByRank(") + std::to_string(r) + ") = " + vstr(got) + " but the node is at " + vstr(e);
+        else if (!nearv(e, got2, tol)) bad = std::string(dbhost ? "DbGrid::getCoordinatesPerSample(" : "Grid::rankToCoordinates(") + std::to_string(r) + ") = " + vstr(got2) + " but the node is at " + vstr(e);
+        if (dbhost) { lastRank = r; lastFlag = 1; editedSince = false; }   // Db::getSampleCoordinates goes through getCoordinate
+        break;
+      }
+      case HQ_ROUNDTRIP:
+      {
+        int r = rr[2]; int ii[3]; Rf.indices(r, ii);
+        VectorDouble c = G->indicesToCoordinate(hvi(ii, nd));
+        int back = dbhost ? db->coordinateToRank(c, true) : G->coordinateToRank(c, true);
+        int back2 = G->coordinateToRank(c, false);
+        if (!nearv(Rf.posI(ii), c, tol)) bad = "indicesToCoordinate" + vi(ii, nd) + " = " + vstr(c) + " but the node is at " + vstr(Rf.posI(ii));
+        else if (back != r || back2 != r) bad = "node " + std::to_string(r) + " -> " + vstr(c) + " -> coordinateToRank = " + std::to_string(back) + " (centred) / " + std::to_string(back2) + " (corner)";
+        break;
+      }
+      case HQ_INDICES:
+      {
+        int r = rr[1]; int ii[3]; Rf.indices(r, ii);
+        VectorInt li(nd); G->rankToIndice(r, li);
+        int rb = G->indiceToRank(li);
+        bool ok = rb == r; for (int i = 0; i < nd; i++) if (li[i] != ii[i]) ok = false;
+        if (!ok) bad = "rankToIndice(" + std::to_string(r) + ") = " + vi(li.data(), nd) + " -> indiceToRank = " + std::to_string(rb) + ", expected " + vi(ii, nd);
+        break;
+      }
+      case HQ_CELL:
+      {
+        int r = rr[1]; int ii[3]; Rf.indices(r, ii);
+        if (dbhost)
+        {
+          VectorVectorDouble ed = db->getCellEdges(r, true);
+          static const int SG[4][2] = {{-1, -1}, {-1, 1}, {1, 1}, {1, -1}};
+          for (int c = 0; c < 4 && bad.empty(); c++)
+          {
+            double f[3] = {ii[0] + 0.5 * SG[c][0], ii[1] + 0.5 * SG[c][1], 0};
+            std::vector<double> e = Rf.pos(f);
+            if (!(std::fabs(ed[0][c] - e[0]) <= tol && std::fabs(ed[1][c] - e[1]) <= tol)) bad = "getCellEdges(" + std::to_string(r) + ") corner " + std::to_string(c) + " = (" + fmt(ed[0][c]) + "," + fmt(ed[1][c]) + ") expected " + vstr(e);
+          }
+        }
+        else
+        {
+          VectorInt sh(nd, -1); double f[3] = {ii[0] - 0.5, ii[1] - 0.5, ii[2] - 0.5};
+          VectorDouble c = G->getCellCoordinatesByCorner(r, sh);
+          if (!nearv(Rf.pos(f), c, tol)) bad = "getCellCoordinatesByCorner(" + std::to_string(r) + ", -1..) = " + vstr(c) + " expected " + vstr(Rf.pos(f));
+        }
+        break;
+      }
+      case HQ_STORED:
+      {
+        // the x1.. columns are written by create()/reset(); nothing in DbGrid.hpp promises that they follow setX0/setDX/setNX/
+        // gridCopyParams: judged only while no in-place edit happened since the last (re)construction, counted otherwise
+        int r = std::min(rr[1], db->getSampleNumber() - 1);
+        std::vector<double> e = expect(r, true);
+        bool same = true;
+        for (int i = 0; i < nd; i++) { int ic = db->getColIdxByLocator(ELoc::X, i); if (ic < 0 || !(std::fabs(db->getValueByColIdx(r, ic) - e[i]) <= tol)) same = false; }
+        if (last) C.outcome(std::string("stored-columns/") + (inPlaceEditSinceReset ? "after-in-place-edit(not-judged)/" : "after-construction(judged)/") + (same ? "equal-geometry" : "STALE"));
+        if (!same && !inPlaceEditSinceReset) bad = "stored coordinate columns of node " + std::to_string(r) + " differ from the geometry " + vstr(e) + " right after construction/reset";
+        break;
+      }
+    }
+    if (last && !bad.empty())
+    {
+      // mechanism: does the answer correspond to the geometry BEFORE the last edits (stale cache)?
+      C.violation(std::string("history:") + (op <= HQ_CM_NOROT || (dbhost && op <= HQ_SL) ? "getCoordinate" : HOPN[op]) + ":after-in-place-edit", std::string(dbhost ? "DbGrid" : "Grid") + " (parameters asked by the setters: " + M.text() + ") history {" + [&]() {
+        std::string t; for (size_t q = 0; q < h.size(); q++) t += (q ? "; " : "") + std::string(HOPN[h[q]]); return t; }() + "}: " + bad + " [current parameters: " + Rf.text() + "]", kase);
+    }
+  }
+  // canonical key
+  Hash H;
+  H.i(iseed).i(dbhost);
+  for (int i = 0; i < nd; i++) H.i(G->getNX(i)).d(G->getDX(i)).d(G->getX0(i));
+  H.vd(G->getRotAngles());
+  H.vi(G->_iwork0).vd(G->_work1).vd(G->_work2);
+  H.i(lastRank).i(lastFlag).i(editedSince).i(inPlaceEditSinceReset);
+  if (dbhost) H.i(db->getSampleNumber()).i(db->getColumnNumber());
+  res.key = H.h;
+  if (!h.empty())
+  {
+    bool primed = false;   // a node asked, then an in-place edit, then the same node asked again with nothing in between
+    for (size_t k = 0; k + 2 < h.size() + 0 && !primed; k++) {}
+    int q = -1; bool ed = false;
+    for (int op : h)
+    {
+      bool isq = (op >= HQ_C0 && op <= HQ_CM_NOROT) || (dbhost && op >= HQ_S0 && op <= HQ_SL);
+      if (isq) { int node = op == HQ_CM_NOROT ? 100 + HQ_CM : (op >= HQ_S0 ? op - HQ_S0 + HQ_C0 : op); if (q == node && ed) primed = true; q = node; ed = false; }
+      else if (op < HQ_C0 && op != HE_RESET) ed = true;
+      else if (op == HE_RESET) { q = -1; ed = false; }
+    }
+    if (primed) C.nontrivial(Hash().i(iseed).i(dbhost).s(hist_str(h)).h);
+    C.outcome(primed ? "history/same-node-asked-around-an-in-place-edit" : "history/other");
+  }
+  return res;
+}
+static void historyPart(Ctx& C, int iseed, bool dbhost)
+{
+  int depth = C.thorough() ? 5 : 4;
+  bfs(C, HNOPS, depth, [&](const History& h) -> StepResult { return historyExec(C, iseed, dbhost, h); }, false);
+}
+VF_PART(history_grid_2d) { historyPart(C, 0, false); }
+VF_PART(history_dbgrid_2d) { historyPart(C, 0, true); }
+VF_PART(history_grid_3d) { historyPart(C, 1, false); }
+VF_PART(history_dbgrid_3d) { historyPart(C, 1, true); }
+
+int main(int argc, char** argv) { return run_main(argc, argv, [](Ctx&) { silence(); }, [](Ctx& C) { write_states(C); }); }
